@@ -302,15 +302,22 @@ func (b *Bucket) DeleteBucket(key []byte) (err error) {
 	}
 
 	// Recursively delete all child buckets.
+	// Collect the names first: deleting while iterating would shift the
+	// inodes of an already materialized node under the cursor, so that
+	// some of the child buckets would be skipped and their pages leaked.
 	child := b.Bucket(newKey)
+	var nested [][]byte
 	err = child.ForEachBucket(func(k []byte) error {
-		if err := child.DeleteBucket(k); err != nil {
-			return fmt.Errorf("delete bucket: %s", err)
-		}
+		nested = append(nested, cloneBytes(k))
 		return nil
 	})
 	if err != nil {
 		return err
+	}
+	for _, k := range nested {
+		if err := child.DeleteBucket(k); err != nil {
+			return fmt.Errorf("delete bucket: %s", err)
+		}
 	}
 
 	// Remove cached copy.
